@@ -12,6 +12,7 @@ from . import common as C
 ENGINES = {
     "C01": ("eng_wire", "run"),
     "C02": ("eng_wire", "run"),
+    "C15": ("eng_msg", "run"),
 }
 
 
